@@ -51,7 +51,8 @@ _KINDS = [("a module", "module m { a = 1 }", "m"), ("a function", "f0 = func() {
           ("nil", "n0 = nil", "n0"), ("an error value", "e0 = nil; try { throw \"x\" } catch q { e0 = q }", "e0"), ("a number", "i0 = 5", "i0"), ("a string", "s0 = \"s\"", "s0")]
 for _kn, _decl, _val in _KINDS:
     for _form, _stmt in (("x = e", "x = pick()"), ("var x = e", "var x = pick()"), ("o.f = e", "o = {}; o.f = pick()"), ("a[i] = e", "a = [0]; a[0] = pick()"),
-                         ("x, y = e, e", "x, y = pick(), pick2()"), ("x = c ? e : e", "x = probe(\"c\") ? pick() : pick2()"), ("x = e ?? e", "x = pick() ?? pick2()"),
+                         ("x, y = e, e", "x, y = pick(), pick2()"), ("x, y = e", "x, y = pick()"), ("x, y, z = e", "x, y, z = pick()"), ("o.f, a[0] = e", "o = {}; a = [0]; o.f, a[0] = pick()"),
+                         ("var x, y = e", "var x, y = pick()"), ("x = c ? e : e", "x = probe(\"c\") ? pick() : pick2()"), ("x = e ?? e", "x = pick() ?? pick2()"),
                          ("return e", "func g() { return pick() }; g()"), ("f(e)", "func g(p) { }; g(pick())"), ("[e]", "x = [pick()]"), ("{k: e}", "x = {\"k\": pick()}"),
                          ("m[k] = e in a function", "func g() { o = {}; o[\"k\"] = pick(); return 1 }; g()"), ("x = (e)", "x = (pick())"), ("c <- e", "c = make(chan interface, 1); c <- pick()")):
         _want = {"x, y = e, e": "(s:70);(s:7032)", "x = c ? e : e": "(s:63);(s:70)"}.get(_form, "(s:70)")
